@@ -314,6 +314,27 @@ func (c *Ctx) rulesR7misc(only string) {
 					if nt := namedOf(fieldOwner(rv)); nt == nil || nt.Obj().Name() != "WhenTimeBinding" {
 						continue
 					}
+					// the channel of the binding that was just created (a literal, or
+					// the result of a private constructor returning one) is not a reuse
+					fresh := false
+					if fa, ok := rv.(*ssa.UnOp).X.(*ssa.FieldAddr); ok {
+						switch x := fa.X.(type) {
+						case *ssa.Alloc:
+							fresh = true
+						case *ssa.Call:
+							if cal := x.Call.StaticCallee(); cal != nil && len(cal.Blocks) > 0 && cal.Pkg == hf.Pkg {
+								fresh = len(returnsOf(cal)) > 0
+								for _, cr := range returnsOf(cal) {
+									if _, isAl := retVals(cr)[0].(*ssa.Alloc); !isAl {
+										fresh = false
+									}
+								}
+							}
+						}
+					}
+					if fresh {
+						continue
+					}
 					k++
 					good := false
 					for _, g := range c.guardsHosted(r, wt) {
